@@ -1,5 +1,6 @@
 """C16 — a scheme is a consistent registry of uniquely named fields, functions and lists."""
 from lib import *
+import sem
 import C08
 
 LEVEL = "other"
@@ -151,14 +152,22 @@ def rule_vacant(E, R):
         R.check(norm(tv.get("callee", "")) == "core::result::Result::Ok", rule, fn, "a fresh name succeeds", where=vac["sp"])
         # Occupied reports what it found
         if kind is not None:
+            # (also through a private helper of the same file)
+            S = sem.Sem(E, h)
+            UI = sem.enum_universe(E, "scheme::SchemeItem")
+            pI = lambda v: norm(v.node.get("ty", "")).replace("&", "").replace("mut ", "").strip() == "scheme::SchemeItem"
+            pE = lambda v: "Entry<" in norm(v.node.get("ty", ""))
             tbl = {}
-            for m in exprs(occ["body"], "Match"):
-                for a in m["arms"]:
-                    v = pat_variant(a["pat"])
-                    if v and "SchemeItem::" in v:
-                        errs = [last_seg(norm(c.get("callee", ""))) for c in exprs(a["body"], "Call")
-                                if "RedefinitionError" in norm(c.get("callee", ""))]
-                        tbl[last_seg(v)] = errs
+            for x in S.sites():
+                c = x.node
+                if c.get("k") == "Call" and "RedefinitionError" in norm(c.get("callee", "")) and c.get("callee_kind", "").startswith("Ctor"):
+                    ent = sem.admits(x.pc, pE, None)
+                    if not ent or {sem.variant_head(e) for e in ent} != {"Entry::Occupied"}:
+                        tbl.setdefault("<outside Occupied>", []).append(last_seg(norm(c["callee"])))
+                        continue
+                    items = sem.admitted_tuples(x.pc, [pI], [UI])
+                    for (it,) in items:
+                        tbl.setdefault(last_seg(it), []).append(last_seg(norm(c["callee"])))
             want = {"Field": ["Field", "FieldRedefinitionError"], "Function": ["Function", "FunctionRedefinitionError"]}
             R.check({k: sorted(v) for k, v in tbl.items()} == {k: sorted(v) for k, v in want.items()}, rule, fn,
                     "a taken name fails with the kind (field / function) that holds it", str(tbl), occ["sp"])
@@ -253,8 +262,22 @@ def rule_exact(E, R):
             name_ok = norm(i.get("callee", "")) == "lex::span" and [local_name(a) for a in i["args"]] == ["initial_input", "input"]
     R.check(len(look) == 1 and local_name(look[0]["args"][0]) == "name" and name_ok, rule, fi,
             "the whole maximal dotted run is looked up (no prefix fallback)", where=hi["span"])
-    miss = [c for c in exprs(hi["body"], "MethodCall") if c["m"] in ("ok_or", "ok_or_else") and strip(c["recv"]) in look]
-    R.check(len(miss) == 1, rule, fi, "an unknown name is an error", where=hi["span"])
+    S = sem.Sem(E, hi)
+    oks = [x for x in S.result_leaves() if x.node.get("k") == "Call" and norm(x.node.get("callee", "")) == "core::result::Result::Ok"]
+    good = bool(oks) and len(look) == 1
+    for x in oks:
+        found = False
+        for a, pol in sem.literals(x.pc)[0]:
+            if a.kind == "ok" and pol:
+                root, ch = chain(a.node)
+                if look and ch and ch[0] is look[0] and [c["m"] for c in ch[1:]] in (["ok_or"], ["ok_or_else"]):
+                    found = True
+            if a.kind == "is" and pol and len(a.scruts) == 1 and {sem.variant_head(y[0]) for y in a.alts} == {"Option::Some"}:
+                v = S.resolve(a.scruts[0].node, a.scruts[0].frame)
+                if look and v.node is look[0]:
+                    found = True
+        good = good and found
+    R.check(good, rule, fi, "an unknown name is an error", "every accepting return must sit on a path where the lookup found the name", hi["span"])
 
 
 REF_TYPES = {"scheme::FieldRef", "scheme::Field", "scheme::FunctionRef", "scheme::Function", "scheme::ListRef", "scheme::List"}
